@@ -24,7 +24,7 @@ import baize.wsgi.staticfiles as WS
 from baize.exceptions import HTTPException
 
 from engine import report
-from engine.forksym import Engine, SInt, conc, cur, term_of
+from engine.forksym import Engine, SInt, Unsupported, conc, cur, term_of
 from engine.shims import Shims
 from engine.symseq import SSeq, SStr, _items_of, in_set
 from engine.vloop import drive
@@ -54,6 +54,7 @@ META = {
                "thorough": {"free_path_len_max": 7, "templates": "'/../'+<=7, <=4+'/index.html', <=5+'.html'"}},
     "outside": ["longer paths", "real file I/O, symlinks, permissions", "other directory trees"],
     "expect_kinds": {"all": ["served", "404", "redirect"]},
+    "directory_modes": "absolute path; relative path with the working directory changed between construction and request (package-relative: not covered)",
 }
 
 
@@ -168,9 +169,21 @@ class UrlModel:
         else:
             self.path = url
 
+    host_kept = True
+
     def replace(self, **kw):
+        extra = set(kw) - {"path", "scheme", "netloc"}
+        if extra:
+            raise cur()._raise(Unsupported(f"URL.replace({sorted(extra)}) in the Pages redirect"))
         u = UrlModel(kw.get("path", self.path))
         u.scheme = kw.get("scheme")
+        u.host_kept = self.host_kept and kw.get("netloc", "keep") != ""
+        if not u.host_kept:
+            its = _items_of(self.path)
+            if not its or not in_set(its[0], (47,)):
+                # the real URL text is scheme://host + path: a path without leading '/' fuses with the host, which this stand-in
+                # does not model once the authority is rewritten
+                raise cur()._raise(Unsupported("authority rewritten for a request path that does not start with '/'"))
         return u
 
 
@@ -182,11 +195,18 @@ def make_shims() -> Shims:
     return s
 
 
-def run_app(iface: str, app_kind: str, path):
+def run_app(iface: str, app_kind: str, path, dirmode: str = "abs"):
     RecFile.opened = []
     RecRedirect.targets = []
     mod = WS if iface == "wsgi" else AS
-    app = (mod.Files if app_kind == "files" else mod.Pages)(DIR)
+    if dirmode == "rel":
+        # directory given relative to the working directory AT CONSTRUCTION; the process then changes directory (daemonising
+        # server, --chdir) before the first request: the configured directory must not move with it
+        sympath.CWD = "/srv"
+        app = (mod.Files if app_kind == "files" else mod.Pages)("www")
+        sympath.CWD = "/srv/wwwx"
+    else:
+        app = (mod.Files if app_kind == "files" else mod.Pages)(DIR)
     status = None
     try:
         if iface == "wsgi":
@@ -279,7 +299,10 @@ def job_path(job) -> report.JobResult:
 
     def fn():
         try:
-            got = run_app(iface, app_kind, path)
+            try:
+                got = run_app(iface, app_kind, path, job.get("dirmode", "abs"))
+            finally:
+                sympath.CWD = "/srv"
             err = None
         except Exception as ex:  # noqa: BLE001
             got, err = None, ex
@@ -322,6 +345,10 @@ def job_path(job) -> report.JobResult:
                 tgt = redirects[0]
                 if not same_text(e, tgt.path, SStr(path.items + [47])):
                     raise Fail("redirect-target-wrong")
+                tp = _items_of(tgt.path)
+                if not tgt.host_kept and len(tp) >= 2 and e.check(z3.And(term_of(tp[0]) == 47, term_of(tp[1]) == 47)):
+                    # without an authority a Location starting with '//' IS an authority: the redirect leaves the site
+                    raise Fail("redirect-target-is-a-network-path")
                 outcome = "redirect"
             else:
                 if status != 404 or opened:
@@ -329,9 +356,10 @@ def job_path(job) -> report.JobResult:
                 outcome = "404"
         except Fail as f:
             klass, detail = f.klass, f.detail
-        e.last_sat = False
+        if klass != "redirect-target-is-a-network-path":  # that verdict comes with its own model (the last check)
+            e.last_sat = False
         m = e.witness()
-        wit = {"iface": iface, "app": app_kind, "path": conc(path, m)}
+        wit = {"iface": iface, "app": app_kind, "path": conc(path, m), "dirmode": job.get("dirmode", "abs")}
         with shims.off():
             cp = concrete_path(wit)
         if klass is not None:
@@ -419,16 +447,43 @@ def py_expected(app_kind: str, path: str, base: str):
     return ("404", None)
 
 
+def _remove_dot_segments(path: str) -> str:
+    """RFC 3986 section 5.2.4 (urljoin applies it to relative references only; compare like with like)"""
+    out: List[str] = []
+    for seg in path.split("/")[1:]:
+        if seg == ".":
+            continue
+        if seg == "..":
+            if out:
+                out.pop()
+            continue
+        out.append(seg)
+    if path.endswith(("/.", "/..")):
+        out.append("")
+    return "/" + "/".join(out)
+
+
 def concrete_path(w) -> Optional[str]:
     """unshimmed real code on a real temp directory with real files; audit of what gets opened via the response body"""
     nrm = SSeq.NORMALIZE
     SSeq.NORMALIZE = True
+    cwd0 = None
     try:
         base = real_tree()
         root = base + "/www"
         iface, app_kind, path = w["iface"], w["app"], w["path"]
         mod = WS if iface == "wsgi" else AS
-        app = (mod.Files if app_kind == "files" else mod.Pages)(root)
+        if w.get("dirmode") == "rel":
+            cwd0 = _os.getcwd()
+            try:
+                _os.chdir(base)
+                app = (mod.Files if app_kind == "files" else mod.Pages)("www")
+                _os.chdir(base + "/wwwx")
+            except BaseException:
+                _os.chdir(cwd0)
+                raise
+        else:
+            app = (mod.Files if app_kind == "files" else mod.Pages)(root)
         exp = py_expected(app_kind, path, base)
         status = None
         body = b""
@@ -468,13 +523,30 @@ def concrete_path(w) -> Optional[str]:
             if status != 307:
                 return f"status {status}; expected redirect to path + '/'"
             from urllib.parse import quote
-            if loc is None or not loc.endswith(quote(path + "/", safe="/#%[]=:;$&()+,!?*@'~")):
+            qp = quote(path + "/", safe="/#%[]=:;$&()+,!?*@'~")
+            if loc is None or not loc.endswith(qp):
                 return f"redirect location {loc!r} for path {path!r}"
+            if path.startswith("/"):
+                # what a client does with it: resolve against the request URL; it must stay on the host, at the same path + '/'
+                req_url = "http://h" + qp[:-1]
+                # RFC 3986 5.2.2 by hand (urljoin has its own ideas about empty segments): network-path, absolute-path, else full URL
+                if loc.startswith("//"):
+                    netloc, _, rest = loc[2:].partition("/")
+                    got = (netloc, "/" + rest)
+                elif loc.startswith("/"):
+                    got = ("h", loc)
+                else:
+                    from urllib.parse import urlsplit
+                    got = (urlsplit(loc).netloc, urlsplit(loc).path)
+                if (got[0], _remove_dot_segments(got[1])) != ("h", _remove_dot_segments(qp)):
+                    return f"redirect location {loc!r} resolves to host {got[0]!r} path {got[1]!r} for request {req_url!r}"
         elif status != 404:
             return f"status {status} body {body!r}; expected 404"
         return None
     finally:
         SSeq.NORMALIZE = nrm
+        if cwd0 is not None:
+            _os.chdir(cwd0)
 
 
 def jobs(tier: str):
@@ -496,6 +568,10 @@ def jobs(tier: str):
             for n in range(0, (5 if thorough else 4) + 1):
                 out.append(dict(name=f"{iface}/{app}/{n}+html", iface=iface, app=app, n=n, post=".html", weight=4 ** n))
             # a path segment longer than NAME_MAX (the concrete prefix fills it; the symbolic characters decide where it ends)
+            # directory configured as a relative path, working directory changed afterwards
+            for n in range(0, 3 if thorough else 2):
+                out.append(dict(name=f"{iface}/{app}/reldir/free{n + 1}", iface=iface, app=app, n=n, pre="/", dirmode="rel", weight=4 ** n))
+            out.append(dict(name=f"{iface}/{app}/reldir/dotdot+2", iface=iface, app=app, n=2, pre="/../", dirmode="rel", weight=16))
             out.append(dict(name=f"{iface}/{app}/longname+2", iface=iface, app=app, n=2, pre="/" + "a" * 254, weight=20))
     out.append(dict(name="twin", iface="wsgi", app="files", n=2, twin=True))
     return out
